@@ -78,6 +78,35 @@ def concretize(prog: Prog, inp: dict[str, int]):
     }
 
 
+def mk_tx(to: int, caller: int, origin: int, value: int, data: bytes, *, static=False, create=False, transfer=False) -> dict:
+    return {
+        "to": word(to),
+        "caller": word(caller),
+        "origin": word(origin),
+        "value": word(value),
+        "data": list(data),
+        "static": static,
+        "create": create,
+        "transfer": transfer,
+    }
+
+
+def mk_case(cid: int, accounts: dict, txs: list[dict], *, storage=None, balances=None, env=None, create_base=CREATE_BASE) -> dict:
+    """A case for EvmRun.tla: a world and a sequence of messages."""
+    e = dict(DEFAULT_ENV)
+    if env:
+        e.update(env)
+    return {
+        "id": cid,
+        "code": [{"a": word(a), "c": list(code)} for a, code in sorted(accounts.items())],
+        "storage": [{"a": word(a), "k": word(k), "v": word(v)} for (a, k), v in sorted((storage or {}).items())],
+        "balance": [{"a": word(a), "v": word(v)} for a, v in sorted((balances or {}).items())],
+        "txs": txs,
+        "env": {**{k: word(v) for k, v in e.items()}, "createBase": word(create_base),
+                "opaque": [word(HEVM), word(SVM), word(CONSOLE)]},
+    }
+
+
 def to_case(cid: int, prog: Prog, inp: dict[str, int], *, transfer: bool = False, env: dict | None = None) -> dict:
     c = concretize(prog, inp)
     e = dict(DEFAULT_ENV)
@@ -89,16 +118,10 @@ def to_case(cid: int, prog: Prog, inp: dict[str, int], *, transfer: bool = False
         "code": [{"a": word(a), "c": list(code)} for a, code in sorted(accounts.items())],
         "storage": [{"a": word(a), "k": word(k), "v": word(v)} for (a, k), v in sorted(prog.storage.items())],
         "balance": [{"a": word(a), "v": word(v)} for a, v in sorted(c["balances"].items())],
-        "tx": {
-            "to": word(prog.target),
-            "caller": word(c["caller"]),
-            "origin": word(c["origin"]),
-            "value": word(c["value"]),
-            "data": list(c["data"]),
-            "static": prog.static,
-            "create": prog.create,
-            "transfer": transfer,
-        },
+        "txs": [
+            mk_tx(prog.target, c["caller"], c["origin"], c["value"], c["data"], static=prog.static, create=prog.create,
+                  transfer=transfer)
+        ],
         "env": {
             **{k: word(v) for k, v in e.items()},
             "createBase": word(prog.meta.get("create_base", CREATE_BASE)),
